@@ -97,6 +97,7 @@ type svcWorldIn struct {
 	balance    *uint64
 	freshPriv  string
 	freshID    string
+	sendFail   bool // the first message the node tries to send during the operation cannot be delivered
 }
 
 func (sc *svcScen) svcWorldTerm(in svcWorldIn, d *swap.SwapData) string {
@@ -208,7 +209,11 @@ func (sc *svcScen) runOp(kind, term string, in svcWorldIn, precheck []string, id
 	e := sc.env
 	e.suspAtStep = e.PeerSuspicious
 	sc.applyPlan(in)
-	e.beginStep(Plan{}, precheck...)
+	plan := Plan{}
+	if in.sendFail {
+		plan.Send = []bool{false}
+	}
+	e.beginStep(plan, precheck...)
 	var err error
 	panicked := false
 	func() {
@@ -355,6 +360,19 @@ var svcDirectedScenarios = []svcDirected{
 	{[]string{"req_in_wrap c0 p0", "req_out_wrap c1 p0"}},
 	// admission boundaries
 	{[]string{"req_in_lowcap c0 p0", "req_out_lowcap c1 p0", "req_in_limit c2 p0", "req_out_limit c3 p0"}},
+	// a third party's message with a live swap's id must not change what the counterparty's next message of the
+	// same type does (e.g. through the per-swap "last message type" log)
+	{[]string{"rpc_out c0 p0", "out_agreement", "otb_foreign", "otb_own"}},
+	{[]string{"req_in c0 p0", "otb_foreign", "otb_own", "cancel_foreign", "cancel_own"}},
+	{[]string{"rpc_out c0 p0", "out_agreement_foreign", "out_agreement"}},
+	{[]string{"rpc_in c0 p0", "in_agreement_foreign", "in_agreement", "coop_foreign", "coop_own"}},
+	// id reuse while the refusal cannot be delivered (the requester has disconnected)
+	{[]string{"req_out c0 p0", "req_out_reuse_sendfail c1 p0", "req_in_reuse_sendfail c2 p1"}},
+	{[]string{"req_out_bad c0 p0", "req_in_reuse_sendfail c1 p0"}},
+	{[]string{"req_in c0 p0", "restart_norecover", "req_in_reuse_sendfail c1 p0"}},
+	// recovery of a stored swap fails (store write refused): the swap keeps its channel
+	{[]string{"req_out c0 p0", "restart_fail", "req_in c0 p1", "rpc_out c0 p1"}},
+	{[]string{"rpc_in c0: p0", "restart_fail", "req_out c0 p0"}},
 }
 
 func runSvcScenario(seed uint64, idx int, dbpath string) (*svcScen, error) {
@@ -408,7 +426,8 @@ func runSvcScenario(seed uint64, idx int, dbpath string) (*svcScen, error) {
 	nops := 3 + r.Intn(6)
 	pool := []string{"rpc_out", "rpc_in", "req_out", "req_in", "req_out_reuse", "req_in_reuse", "cancel_own", "cancel_foreign", "coop_foreign",
 		"otb_foreign", "cancel_unknown", "in_agreement", "out_agreement", "otb_early", "coop_early", "restart", "restart_norecover",
-		"req_in_lowcap", "req_out_lowcap", "req_in_limit", "req_out_limit", "req_out_bad", "req_in_wrap", "req_out_wrap"}
+		"req_in_lowcap", "req_out_lowcap", "req_in_limit", "req_out_limit", "req_out_bad", "req_in_wrap", "req_out_wrap",
+		"otb_own", "coop_own", "out_agreement_foreign", "in_agreement_foreign", "req_out_reuse_sendfail", "req_in_reuse_sendfail", "restart_fail"}
 	for i := 0; i < nops; i++ {
 		o := PickS(r, pool)
 		c := fmt.Sprintf("c%d", r.Intn(3))
@@ -499,8 +518,11 @@ func (sc *svcScen) opNamed(spec string) {
 		id := swap.NewSwapId()
 		limit := int64(r.Range(20000, 1000000))
 		version := uint8(7)
-		if strings.HasSuffix(name, "_reuse") && len(sc.known) > 0 {
+		if strings.Contains(name, "_reuse") && len(sc.known) > 0 {
 			id = idFromHex(sc.known[r.Intn(len(sc.known))])
+		}
+		if strings.HasSuffix(name, "_sendfail") {
+			in.sendFail = true
 		}
 		if strings.HasSuffix(name, "_bad") {
 			version = 5 // refused by CheckRequestWrapperAction: swap ends cancelled
@@ -551,7 +573,7 @@ func (sc *svcScen) opNamed(spec string) {
 		}
 	case name == "rpc_out_blocked":
 		sc.runBlockedRPC(ch, peer, amount)
-	case name == "restart" || name == "restart_norecover":
+	case name == "restart" || name == "restart_norecover" || name == "restart_fail":
 		// a restart is not a compared operation here: it changes which swaps are active
 		n, err := newNode(sc.env, sc.node.db)
 		if err != nil {
@@ -561,6 +583,11 @@ func (sc *svcScen) opNamed(spec string) {
 		if name == "restart" {
 			// recovery of several swaps runs concurrently in the code; use it only to re-populate the map
 			sc.env.beginStep(Plan{})
+			sc.node.svc.RecoverSwaps()
+		}
+		if name == "restart_fail" {
+			// every store write during recovery is refused: Recover() of each stored swap returns an error
+			sc.env.beginStep(Plan{Store: []bool{false, false, false, false, false, false, false, false}})
 			sc.node.svc.RecoverSwaps()
 		}
 		sc.ops = append(sc.ops, svcOp{Kind: name, Term: "SvReset", World: sc.svcWorldTerm(svcWorldIn{canSpend: true}, nil), Result: "SOk", Node: sc.nodeTerm(),
